@@ -314,6 +314,37 @@ func estimator(r *vlib.Run) {
 				return
 			}
 		}
+		// the same renderer value used again with other settings, camera and image size (an
+		// animation loop, a preview followed by the final render): nothing of the first render
+		// may carry over
+		if c.Index%4 == 1 {
+			w2, h2 := 2+rng.Intn(24), 2+rng.Intn(18)
+			cam2 := randCamera(rng)
+			rt.Camera = cam2
+			rt.NumSamples = 1 + rng.Intn(40)
+			rt.MinSamples, rt.MaxStddev, rt.OversaturatedStddevs, rt.Convergence = 0, 0, 0, nil
+			rt.Antialias = []float64{0, 0.5}[rng.Intn(2)]
+			obj3 := &logObj{ph: newPinhole(cam2, w2, h2), w: w2, h: h2, seed: uint64(c.SubSeed) + 2, samples: make([][]render3d.Color, w2*h2)}
+			img3 := render3d.NewImage(w2, h2)
+			img3.SetAll(sentinel)
+			rt.Render(img3, obj3)
+			c.Count("estimator.renders_with_a_reused_renderer", 1)
+			set2 := map[string]interface{}{"first": settings, "second": map[string]interface{}{"w": w2, "h": h2, "NumSamples": rt.NumSamples, "Antialias": rt.Antialias}}
+			if obj3.misattr > 0 {
+				c.Violation("render3d.Camera.Caster/ray-maps-back-to-its-pixel", fmt.Sprintf("reused renderer: %d primary rays do not project back to an image pixel of the second render", obj3.misattr), set2)
+				return
+			}
+			for idx, sm := range obj3.samples {
+				if len(sm) != rt.NumSamples {
+					c.Violation("render3d.RecursiveRayTracer.Render/sample-count-in-range", fmt.Sprintf("reused renderer: pixel %d took %d samples, settings ask for exactly %d", idx, len(sm), rt.NumSamples), set2)
+					return
+				}
+				if px := img3.Data[idx]; !relClose(px, mean(sm), 1e-12) {
+					c.Violation("render3d.RecursiveRayTracer.Render/pixel-is-mean-of-its-samples", fmt.Sprintf("reused renderer: pixel %d = %v, mean of its samples %v", idx, px, mean(sm)), set2)
+					return
+				}
+			}
+		}
 		if w*h >= 4 && total >= 2*w*h {
 			c.Nontrivial(fmt.Sprint(settings))
 		}
@@ -326,6 +357,10 @@ func estimator(r *vlib.Run) {
 
 func dispatchOnce(rng *rand.Rand) (events int, problems []string, workers int) {
 	w, h := 1+rng.Intn(97), 1+rng.Intn(61)
+	if rng.Intn(4) == 0 {
+		// more than 2^16 pixels
+		w, h = 260+rng.Intn(80), 255+rng.Intn(60)
+	}
 	counts := make([]int32, w*h)
 	var mu sync.Mutex
 	bad := 0
